@@ -232,6 +232,10 @@ def build_netlist(spec):
             pmap = {p.name: p for p in d.ports}
             for nt in c['nets']:
                 cable = d.create_cable(name=nt['name'])
+                if nt.get('ident'):
+                    cable['EDIF.identifier'] = nt['ident']      # identifier preset by the user
+                    if nt['ident'] != nt['name']:
+                        cable['EDIF.rename'] = True
                 cable.create_wires(nt['width'])
                 if nt['width'] == 1 and nt.get('array'):
                     cable.is_array = True
@@ -365,8 +369,7 @@ def _shrink_candidates(spec):
 # ------------------------------------------------------------------------------------------------
 # C05: abstract designs, independent writer, expected structure
 # ------------------------------------------------------------------------------------------------
-RISKY_C05 = ['design_case', 'design_undeclared', 'glob_net_name', 'amp_bus_ident', 'duplicate_bit',
-             'escaped_bus_name', 'bitlike_scalar']
+RISKY_C05 = ['design_undeclared', 'glob_net_name', 'amp_bus_ident', 'duplicate_bit', 'escaped_bus_name']
 
 IDENT_POOL = ['a', 'b', 'clk', 'rst', 'din', 'dout', 'q', 'sel', 'U', 'net', 'Sig', 'x1', 'n_2', 'CE', 'lut']
 
@@ -547,7 +550,8 @@ def gen_design(rng, risky=None, size=1.0):
     top_li, top = declared[-1]
     design = {'name': _named(rng, set(), rename, 'D'), 'libraries': libs, 'case': case,
               'design': dict(_named(rng, set(), rename, 'T'), lib=top_li, cell=top['ident'],
-                             cell_written=top['ident'], lib_written=libs[top_li]['ident']),
+                             cell_written=_vary(rng, top['ident'], case), lib_written=_vary(rng, libs[top_li]['ident'], case)),
+              'expect': 'accept',
               'status': rng.random() < 0.5, 'risky': risky}
     if risky:
         apply_risky_c05(design, rng, risky)
@@ -556,14 +560,12 @@ def gen_design(rng, risky=None, size=1.0):
 
 def apply_risky_c05(design, rng, risky):
     cells = [c for L in design['libraries'] for c in L['cells']]
-    if risky == 'design_case':
-        d = design['design']
-        for key, src in (('cell_written', d['cell']), ('lib_written', design['libraries'][d['lib']]['ident'])):
-            alt = src.upper() if src != src.upper() else src.lower()
-            d[key] = alt
-    elif risky == 'design_undeclared':
-        design['design']['cell_written'] = 'nosuchcell'
+    if risky == 'design_undeclared':
+        # the design construct names a cell / library that is not declared: must be rejected
+        design['expect'] = 'reject'
         if rng.random() < 0.5:
+            design['design']['cell_written'] = 'nosuchcell'
+        else:
             design['design']['lib_written'] = 'nosuchlib'
     elif risky == 'glob_net_name':
         for c in cells:
@@ -585,11 +587,12 @@ def apply_risky_c05(design, rng, risky):
                         n['ident'] = '%s_%d_' % (n['bus']['ident'], n['bus']['bit'])
                 break
     elif risky == 'duplicate_bit':
+        # a second net for a bit that is already there (its pins belong to the same bit)
         for c in cells:
             bus = [n for n in c['nets'] if n['bus']]
             if bus:
                 n = bus[0]
-                c['nets'].append({'ident': n['ident'] + 'dup', 'orig': n['orig'], 'bus': None, 'dup_of': n['bus'], 'pins': [], 'properties': []})
+                c['nets'].append({'ident': n['ident'], 'orig': n['orig'], 'bus': dict(n['bus']), 'pins': [], 'properties': []})
                 break
     elif risky == 'escaped_bus_name':
         for c in cells:
@@ -601,14 +604,6 @@ def apply_risky_c05(design, rng, risky):
                     if n['bus']['ident'] == bi:
                         n['bus'] = dict(n['bus'], name=newname)
                         n['orig'] = '%s[%d]' % (newname, n['bus']['bit'])
-                break
-    elif risky == 'bitlike_scalar':
-        for c in cells:
-            sc = [n for n in c['nets'] if not n['bus']]
-            if sc:
-                n = sc[0]
-                n['orig'] = (n['orig'] or n['ident']) + '[2]'
-                n['ident'] = n['ident'] + '_2_'
                 break
 
 
@@ -757,8 +752,7 @@ def _nm(x):
 
 
 def expected(design):
-    """The netlist the text declares, in the shape of edif_canon.canon(identifiers=True,
-    all_properties=True). Written from the EDIF meaning of the constructs, not from the reader."""
+    """The netlist the text declares, in the shape of edif_canon.canon(identifiers=True). Written from the EDIF meaning of the constructs, not from the reader."""
     libs = design['libraries']
     out = {'name': _nm(design['name']), 'ident': design['name']['ident'], 'libraries': {},
            'order': {'libraries': [_nm(L) for L in libs]}}
@@ -769,14 +763,13 @@ def expected(design):
         out['libraries'][_nm(L)] = EL
         for c in L['cells']:
             EC = {'ports': [], 'instances': {}, 'nets': {}, 'inst_order': [_nm(x) for x in c['instances']], 'net_order': [],
-                  'ident': c['ident'], 'properties': []}
+                  'ident': c['ident']}
             EL['cells'][_nm(c)] = EC
             pname = {}
             for p in c['ports']:
                 pname[p['ident'].lower()] = _nm(p)
                 EC['ports'].append({'name': _nm(p), 'ident': p['ident'], 'direction': p['direction'], 'width': p['width'],
-                                    'array': bool(p['array']), 'properties': [],
-                                    'lower': p['lower_from_name'] if p.get('lower_from_name') is not None else 0})
+                                    'array': bool(p['array'])})
             iname = {}
             for x in c['instances']:
                 iname[x['ident'].lower()] = x
@@ -797,21 +790,17 @@ def expected(design):
                 if n['bus']:
                     key = n['bus']['name']
                     if key not in buses:
-                        buses[key] = {'ident': n['bus']['ident'], 'bits': {}, 'properties': []}
+                        buses[key] = {'ident': n['bus']['ident'], 'bits': {}}
                         EC['net_order'].append(key)
                     buses[key]['bits'].setdefault(n['bus']['bit'], []).extend(pins)
-                    # metadata of the merged cable = metadata of its first net
-                    if len(buses[key]['bits']) == 1 and not buses[key]['properties']:
-                        buses[key]['properties'] = [_eprop(p) for p in n.get('properties', [])]
                 else:
                     nm = _nm(n)
                     EC['net_order'].append(nm)
-                    EC['nets'][nm] = {'ident': n['ident'], 'width': 1, 'lower': 0, 'array': False, 'bits': [pins],
-                                      'properties': [_eprop(p) for p in n.get('properties', [])]}
+                    EC['nets'][nm] = {'ident': n['ident'], 'width': 1, 'lower': 0, 'array': False, 'bits': [pins]}
             for key, b in buses.items():
                 lo, hi = min(b['bits']), max(b['bits'])
                 EC['nets'][key] = {'ident': b['ident'], 'width': hi - lo + 1, 'lower': lo, 'array': True,
-                                   'bits': [b['bits'].get(i, []) for i in range(lo, hi + 1)], 'properties': b['properties']}
+                                   'bits': [b['bits'].get(i, []) for i in range(lo, hi + 1)]}
     return out
 
 
